@@ -40,7 +40,7 @@ impl Utils {
                 Self::gen_offsets(endianness, width)
                     .into_iter()
                     .map(|offset| {
-                        t.rshift(
+                        t.lshift(
                             t.cast(
                                 t.symbol(quote!(buf.get()), Integral::Byte),
                                 Integral::fitting(width),
